@@ -40,7 +40,7 @@ CHECKS = {
     },
     "C14": {
         "level": "model_checking",
-        "technique": "TLA+ spec Backend.tla (outline builder AddBookmark as a transition system vs declarative Outline, anchors/links expectations; drawing protocol Proto as a folded transition function) model-checked by TLC; link documents replayed and compared call by call; backend call sequences recorded from document.Write validated as traces by TLC (BackendTrace.tla) on Decor/Flow/TableGrid/Stacking/link documents at three zooms",
+        "technique": "TLA+ spec Backend.tla (outline builder AddBookmark as a transition system vs declarative Outline, anchors/links expectations; drawing protocol Proto as a folded transition function) and Metadata.tla (collecting title/meta as a transition system) model-checked by TLC; link and metadata documents replayed and compared call by call; backend call sequences recorded from document.Write validated as traces by TLC (BackendTrace.tla) on Decor/Flow/TableGrid/Stacking/link documents at three zooms",
         "text": "TLC proves the outline algorithm equals the declarative outline and never hits its internal panic, and emits anchors/links/outline expectations; "
                 "the real CreateAnchors/AddInternalLink/SetBookmarks/metadata calls must match, and every recorded call sequence must satisfy the protocol guards.",
         "note": "Recording backend; no images/SVG in the corpus; CreateAnchors order within a page is not compared here.",
@@ -68,7 +68,7 @@ CHECKS = {
     },
     "C02": {
         "level": "model_checking",
-        "technique": "TLA+ spec Flow.tla (non-deterministic fragmenter; invariant Conserves = every behaviour satisfies the declarative statement Accept) model-checked by TLC; TLC-generated documents laid out and drawn by the real code, the real page token sequences validated as traces by TLC (FlowTrace.tla, PaginationTrace.tla), drawn tokens compared with laid-out tokens on the same run (hook VerifPageBox)",
+        "technique": "TLA+ spec Flow.tla (non-deterministic fragmenter with blank pages and floats inside paragraphs; invariant Conserves = every behaviour satisfies the declarative statement Accept) model-checked by TLC; TLC-generated documents laid out and drawn by the real code, the real page token sequences validated as traces by TLC (FlowTrace.tla, PaginationTrace.tla), drawn tokens compared with laid-out tokens on the same run (hook VerifPageBox)",
         "text": "TLC proves on the model that conservation does not depend on where pages break, generates documents over 14 kinds of items, and "
                 "validates every real page sequence against Accept; each laid-out token must reach DrawText exactly once on its page.",
         "note": "Unique word tokens, box-tree order per page; crashing documents are left to C01; known findings: table header/footer dropped on tiny pages, "
@@ -84,7 +84,7 @@ CHECKS = {
     },
     "C11": {
         "level": "model_checking",
-        "technique": "TLA+ spec LineBreak.tla (greedy line filler as a transition system with Conservation/FitsWidth/Greedy invariants) model-checked by TLC; every paragraph laid out by layout.Layout with a metric-exact font under both text engines",
+        "technique": "TLA+ specs LineBreak.tla (greedy line filler as a transition system with Conservation/FitsWidth/Greedy invariants) and LineHeight.tla (aligned subtrees of vertical-align top/bottom measured through a growing worklist; AllDiscovered/ContentsFit) model-checked by TLC; every paragraph laid out by layout.Layout with a metric-exact font under both text engines",
         "text": "TLC explores the filler on every bounded paragraph, proving the three line-breaking clauses and termination on the model and emitting "
                 "words and geometry per line; the real layout must produce the same lines, positions, widths and heights (pango exact, go-text 0.05px).",
         "note": "LTR, 1em-per-glyph font, no hyphenation/spacing/floats; two known findings (inline-box break rules; go-text pre-line).",
